@@ -24,7 +24,7 @@ pub const META: PropMeta = PropMeta {
     level: "exploration",
     rule: "cases = every variant of every enum and every struct whose emitted item has no generic parameters, in simulator registries (after ensure_unique_type_paths), Polkadot (call / event / error enums: thousands of variants) and 3 settings (root, alloc path, docs, CompactAs configured or not, global derives and attributes, specific and recursive registrations on the parent type that must NOT leak). For each: create_composite_ir_kind(fields) + CompositeIR::new + upcast_composite(..).to_token_stream(settings) is parsed and compared with the variant inside the emitted enum: field names, order, type tokens (Box included), compact markers; derives == global derives (+ CompactAs iff configured and exactly one non-marker field that is u8..u128 and not compact-marked; a compact-marked one is don't-care), attributes == global attributes. Artifact tier (one batch quick, several thorough): the structs are compiled inside the case module next to the generated root module with parity-scale-codec derives; for reference encodings of each variant, encode(decode::<Enum>(bytes))[1..] must equal encode(decode::<Struct>(bytes[1..])) and both must consume their input. non-trivial = a variant with >= 1 field; distinct by (registry hash, type id, variant).",
     assumptions: &["payload equality in the interpreted tier follows from token-identical field lists plus C01's fidelity of the enum; the artifact tier observes it directly"],
-    required_counters: &["standalone_structs_built", "fields_compared", "compact_fields_seen", "boxed_fields_seen", "compact_as_required", "artifact_payloads_equal"],
+    required_counters: &["standalone_structs_built", "fields_compared", "compact_fields_seen", "boxed_fields_seen", "compact_as_required", "artifact_payloads_equal", "refused_without_compact_path"],
     floor: (1000, 30_000),
     shards: (16, 16),
 };
@@ -136,6 +136,27 @@ pub fn judge_registry(ctx: &mut Ctx, r: &PortableRegistry, d: &SDesc, replay: &d
                 };
                 ctx.violation(format!("C18:{kind}"), format!("{} variant {:?}: standalone struct fields {:?}, variant fields {:?}", path.join("::"), vi, a, b), replay(t.id, vi));
             }
+            // Box markers against the registry's field list itself (the variant of the emitted enum
+            // goes through the same routine and would share a wrong marker): one Box around the
+            // field iff the recorded type name mentions `Box<`, none around a compact member
+            let real: Vec<&FieldM> = sf.fields.iter().filter(|f| !matches!(cl.classify(&f.ty), CHead::Phantom(_))).collect();
+            if real.len() == fields.len() {
+                for (rf, cf) in fields.iter().zip(real.iter()) {
+                    let Some(tn) = &rf.type_name else { continue };
+                    let mentions_box = tn.match_indices("Box<").any(|(i, _)| i == 0 || !tn[..i].chars().last().map(|c| c.is_alphanumeric() || c == '_').unwrap_or(false));
+                    let compact = cf.compact || matches!(r.resolve(rf.ty.id).map(|t| &t.type_def), Some(TypeDef::Compact(_)));
+                    let want = mentions_box && !compact;
+                    let got = matches!(cl.classify(&cf.ty), CHead::Box(_));
+                    ctx.count("box_markers_checked", 1);
+                    if want != got {
+                        ctx.violation(
+                            "C18:box-marker",
+                            format!("{} variant {:?}: member `{}` has recorded type name `{tn}` but the standalone struct has `{}`", path.join("::"), vi, rf.name.clone().unwrap_or_default(), nows(&ts(&cf.ty))),
+                            replay(t.id, vi),
+                        );
+                    }
+                }
+            }
             if sf.style != emitted.style && !(fields.is_empty()) {
                 ctx.violation("C18:field-style", format!("{} variant {:?}: struct is {:?}, variant is {:?}", path.join("::"), vi, sf.style, emitted.style), replay(t.id, vi));
             }
@@ -173,6 +194,48 @@ pub fn judge_registry(ctx: &mut Ctx, r: &PortableRegistry, d: &SDesc, replay: &d
             }
             ctx.case(hash_of(&(fp, t.id, vi, serde_json::to_string(d).unwrap())), !fields.is_empty());
             collect.push((Target { type_id: t.id, variant: vi, struct_name: sname.clone() }, built.tokens));
+        }
+    }
+}
+
+/// With the compact path unset the enum itself cannot be generated; a standalone struct built from
+/// a field list with a compact member must then be refused too (the documented error) - or, if it
+/// is built, carry the compact marker exactly where the registry has a compact, like the variant
+/// of the enum generated with the path set does.
+pub fn judge_without_compact_path(ctx: &mut Ctx, r: &PortableRegistry, d: &SDesc, replay: &dyn Fn(u32, Option<usize>) -> serde_json::Value) {
+    let mut d2 = d.clone();
+    d2.compact_path = None;
+    let is_compact = |f: &Field<PortableForm>| matches!(r.resolve(f.ty.id).map(|t| &t.type_def), Some(TypeDef::Compact(_)));
+    for t in &r.types {
+        if !reg::is_generated(&t.ty) || d.is_substituted(&t.ty.path.segments) || t.ty.type_params.iter().any(|p| p.ty.is_some()) {
+            continue;
+        }
+        let groups: Vec<(Option<usize>, &[Field<PortableForm>])> = match &t.ty.type_def {
+            TypeDef::Composite(c) => vec![(None, &c.fields[..])],
+            TypeDef::Variant(v) => v.variants.iter().enumerate().map(|(i, v)| (Some(i), &v.fields[..])).collect(),
+            _ => continue,
+        };
+        for (vi, fields) in groups {
+            let want: Vec<bool> = fields.iter().map(|f| is_compact(f)).collect();
+            if !want.iter().any(|c| *c) {
+                continue;
+            }
+            ctx.begin_case(&format!("c18 (no compact path) type {} variant {:?}", t.id, vi));
+            match build_struct(r, &d2, fields, &[], "NoCompactPath") {
+                Err(e) if e == "error:CompactPathNone" => ctx.count("refused_without_compact_path", 1),
+                Err(e) => ctx.count(&format!("without_compact_path[{e}]"), 1),
+                Ok(b) => {
+                    let ItemKind::Struct(sf) = &b.item.kind else { continue };
+                    let got: Vec<bool> = sf.fields.iter().map(|f| f.compact).collect();
+                    if got.len() < want.len() || want.iter().zip(got.iter()).any(|(w, g)| w != g) {
+                        ctx.violation(
+                            "C18:compact-marker",
+                            format!("type {} variant {:?} built with the compact path unset: compact members {:?} in the registry, markers {:?} on the struct `{}`", t.id, vi, want, got, b.tokens.chars().take(200).collect::<String>()),
+                            replay(t.id, vi),
+                        );
+                    }
+                }
+            }
         }
     }
 }
@@ -349,6 +412,9 @@ pub fn run(ctx: &mut Ctx) {
         let dj = serde_json::to_value(&d).unwrap();
         let mut sink = Vec::new();
         judge_registry(ctx, &r, &d, &|id, v| json!({"kind": "c18", "registry": regj, "sdesc": dj, "id": id, "variant": v}), &mut sink);
+        if case % 4 == 0 {
+            judge_without_compact_path(ctx, &r, &d, &|id, v| json!({"kind": "c18", "registry": regj, "sdesc": dj, "id": id, "variant": v, "no_compact_path": true}));
+        }
         if ctx.res.samples.len() < 2 {
             if let Some((t, tokens)) = sink.first() {
                 ctx.sample(json!({"type_id": t.type_id, "variant": t.variant, "standalone_struct": tokens.chars().take(300).collect::<String>()}));
@@ -379,6 +445,11 @@ pub fn replay(ctx: &mut Ctx, v: &serde_json::Value) {
     let r = reg::from_json(&v["registry"]);
     let d: SDesc = serde_json::from_value(v["sdesc"].clone()).expect("sdesc");
     let vv = v.clone();
+    if v["no_compact_path"].as_bool() == Some(true) {
+        judge_without_compact_path(ctx, &r, &d, &move |_, _| vv.clone());
+        ctx.case(0, true);
+        return;
+    }
     let mut sink = Vec::new();
     judge_registry(ctx, &r, &d, &move |_, _| vv.clone(), &mut sink);
 }
